@@ -6,7 +6,7 @@
 
 use crate::ops::{Op, Opts};
 use crate::plan::{Call, Plan, Sched};
-use crate::rng::{mix, mix3, Rng};
+use crate::rng::{fnv, mix, mix3, Rng};
 
 pub const DIALECTS: &[&str] = &[
     "sql.any",
@@ -130,6 +130,9 @@ impl<'a> PGen<'a> {
         match self.r.below(8) {
             0 => "null".into(),
             1 => format!("{}", self.r.below(100)),
+            // one time in six a float whose shortest decimal form is not what a JSON document
+            // reads back to (documents written by one stage and read by the next, S78)
+            2 if self.r.below(6) == 0 => (*self.r.pick(&["1.602176634e-19", "6.02214076e23", "2.2250738585072014e-308", "0.1e-6", "1e999", "123456789.123456789e-5"])).to_string(),
             2 => format!("{}.{}", self.r.below(10), self.r.below(100)),
             3 => "'it'".into(),
             4 => "\"x\"".into(),
@@ -1586,6 +1589,15 @@ impl<'a> Gen<'a> {
                 opts: pick_opts(r, dialect_sensitive),
             },
             12 if r.below(3) == 0 => Op::StagedJson {
+                // half of the time another request's documents are written in between (S78)
+                between: {
+                    let mut jr = Rng::new(mix(fnv(src.as_bytes()), 0x5781));
+                    match jr.below(4) {
+                        0 => Some("from x | derive y = 2.5".to_string()),
+                        1 => Some(format!("from {} | filter a > 1.5e3 | take 1", jr.pick(TABLES))),
+                        _ => None,
+                    }
+                },
                 src,
                 opts: pick_opts(r, dialect_sensitive),
             },
@@ -1749,6 +1761,24 @@ impl<'a> Gen<'a> {
                     // and more files, so that two unreadable ones are likelier to be apart
                     p.files.push(("zz_bad.prql".to_string(), "%%RAW%%from t | select %C3%28\n".to_string()));
                 }
+            }
+            // a byte order mark at the start of a file, or CRLF line ends throughout (files that
+            // came from another editor or platform): own PRNG stream (S79)
+            let mut br = Rng::new(mix(r.next_u64(), 0xB0B0));
+            match br.below(10) {
+                0 | 1 => {
+                    let k = br.below(p.files.len());
+                    if !p.files[k].1.starts_with("%%RAW%%") {
+                        p.files[k].1 = format!("\u{feff}{}", p.files[k].1);
+                    }
+                }
+                2 => {
+                    let k = br.below(p.files.len());
+                    if !p.files[k].1.starts_with("%%RAW%%") {
+                        p.files[k].1 = p.files[k].1.replace('\n', "\r\n");
+                    }
+                }
+                _ => {}
             }
             (p.files, mp)
         };
@@ -2111,7 +2141,7 @@ impl<'a> Gen<'a> {
         let shape = r.below(8);
         let n = r.range(12, 40);
         let letters = b"abcdefghijklmnopqrstuvwxyz";
-        let mut name = |r: &mut Rng| -> String {
+        let name = |r: &mut Rng| -> String {
             let a = letters[r.below(26)] as char;
             let b = letters[r.below(26)] as char;
             format!("{a}{b}")
